@@ -38,7 +38,8 @@ pub trait Mechanism {
   // the data-phase framer remembers which mechanism produced it and whether that mechanism had completed
   fn into_framer(self: Box<Self>, max_msg_size: i64, sndbatch_count: usize, sndbatch_bytes_physical: usize)
     -> (r: Result<(Box<dyn ISecureFramer>, Option<Vec<u8>>), ZmqError>)
-    ensures r matches Ok(p) ==> p.0.origin_kind() == self.kind() && p.0.origin_complete() == self.complete() && p.0.origin_role_server() == self.role_server();
+    ensures r matches Ok(p) ==> p.0.origin_kind() == self.kind() && p.0.origin_complete() == self.complete() && p.0.origin_role_server() == self.role_server()
+      && p.0.max_size() == max_msg_size;
 }
 
 pub struct NullMechanism;
@@ -66,6 +67,8 @@ pub trait ISecureFramer {
   spec fn origin_kind(&self) -> MechKind;
   spec fn origin_complete(&self) -> bool;
   spec fn origin_role_server(&self) -> bool;
+  // ghost: the MAXMSGSIZE limit this framer was built with (frames above it are refused; fixed for its lifetime; -1 = none)
+  spec fn max_size(&self) -> i64;
   // ghost history: every frame try_read_msg has returned so far, in order
   spec fn read_log(&self) -> Seq<Msg>;
   // ghost termination measure (ASSUMED for trait objects; for NullFramer the buffer length is one)
@@ -77,6 +80,7 @@ pub trait ISecureFramer {
       final(self).origin_kind() == old(self).origin_kind(),
       final(self).origin_complete() == old(self).origin_complete(),
       final(self).origin_role_server() == old(self).origin_role_server(),
+      final(self).max_size() == old(self).max_size(),
       r matches Ok(Some(m)) ==> final(self).read_log() == old(self).read_log().push(m)
         && final(self).budget(final(network_buffer)@) < old(self).budget(old(network_buffer)@),
       !(r matches Ok(Some(_))) ==> final(self).read_log() == old(self).read_log(),
@@ -85,8 +89,31 @@ pub trait ISecureFramer {
       final(network_buffer).stream() == old(network_buffer).stream();
   fn write_msg_multipart(&mut self, msgs: FrameBatch) -> (r: Result<Bytes, ZmqError>)
     ensures final(self).origin_kind() == old(self).origin_kind(), final(self).origin_complete() == old(self).origin_complete(),
-      final(self).origin_role_server() == old(self).origin_role_server(),
+      final(self).origin_role_server() == old(self).origin_role_server(), final(self).max_size() == old(self).max_size(),
       final(self).read_log() == old(self).read_log();
+}
+
+// NullFramer (security/framer/mod.rs; its methods are proved in unit framer): the pass-through framer of the handshake phases and of NULL
+#[verifier::external_body]
+pub struct NullFramer { x: u8 }
+impl ISecureFramer for NullFramer {
+  open spec fn origin_kind(&self) -> MechKind { MechKind::Null }
+  open spec fn origin_complete(&self) -> bool { true }
+  uninterp spec fn origin_role_server(&self) -> bool;
+  uninterp spec fn max_size(&self) -> i64;
+  uninterp spec fn read_log(&self) -> Seq<Msg>;
+  uninterp spec fn budget(&self, buf: Seq<u8>) -> nat;
+  uninterp spec fn would_block(&self, buf: Seq<u8>) -> bool;
+  #[verifier::external_body]
+  fn try_read_msg(&mut self, network_buffer: &mut BytesMut) -> (r: Result<Option<Msg>, ZmqError>) { unimplemented!() }
+  #[verifier::external_body]
+  fn write_msg_multipart(&mut self, msgs: FrameBatch) -> (r: Result<Bytes, ZmqError>) { unimplemented!() }
+}
+impl NullFramer {
+  #[verifier::external_body]
+  pub fn new(max_msg_size: i64, sndbatch_count: usize, sndbatch_bytes_physical: usize) -> (r: NullFramer)
+    ensures r.max_size() == max_msg_size
+  { unimplemented!() }
 }
 
 // ---- READY command / command parser (protocol/zmtp/command.rs): contract stand-ins, proved in unit `command`
